@@ -60,7 +60,7 @@ Proof.
   assert (M : b_no (ls_lib (st_ls (nd_st nd))) <= b_no (ls_lib (st_ls st2))).
   { eapply Z.le_trans. 2: apply fold_status_update_lib_mono. apply status_update_lib_mono. }
   destruct failed; cbn [fst nd_st]; auto.
-  eapply Z.le_trans. exact M. apply update_to_best_lib_mono.
+  eapply Z.le_trans. exact M. eapply Z.le_trans; apply update_to_best_lib_mono.
 Qed.
 
 Theorem deliver_f_main_stable : forall bad nd blk h b,
@@ -84,7 +84,7 @@ Qed.
 (** * What does not: after a failed reorganisation the LIB is a block of the failed branch *)
 (** 2 producers; main chain 1..4; a side branch 5,6,7,8,9 from the genesis block whose last block
     fails at execution: the rollforward of 5..8 moved the LIB to block 6 (height 2), the error
-    path (Update(old best)) keeps it; the main chain holds block 2 at that height; nothing is
+    path (Update(old best), twice since fix 05cfcb8b) keeps it; the main chain holds block 2 at that height; nothing is
     saved, so a restart brings the old LIB back. *)
 Definition f25_events : list fevent :=
   map FDeliver [mkBlk 1 0 1 1 1; mkBlk 2 1 2 0 2; mkBlk 3 2 3 0 1; mkBlk 4 3 4 0 1;
